@@ -276,6 +276,43 @@ def gen_names(tier: str) -> Iterator[dict]:
             yield {"id": f"N:{word}:{role}", "space": "N", "src": src, "runs": [{"passes": 2, "ar": {"A0": [4]}}], "must_accept": word in PLAIN_WORDS}
 
 
+# -- every Python built-in called in the usual forms, every binary operator over every pair of operand kinds ----------
+def gen_builtins(tier: str) -> Iterator[dict]:
+    import builtins
+
+    names = sorted(n for n in dir(builtins) if callable(getattr(builtins, n)) and not n.startswith("_") and not isinstance(getattr(builtins, n), type(BaseException)) or n in ("int", "float", "bool", "str", "list", "tuple", "dict", "set", "range", "type", "object", "bytes", "map", "zip", "filter", "enumerate", "reversed", "slice", "complex", "frozenset"))
+    names = [n for n in dict.fromkeys(names) if not (isinstance(getattr(builtins, n), type) and issubclass(getattr(builtins, n), BaseException))]
+    head = ["g = a * 0.5", 'txt = "ab"', "li = [3, 4, 5]"]
+    forms = ["v = {N}(a)", "v = {N}(g)", "v = {N}(txt)", "v = {N}(li)", "v = {N}(a, 2)", "v = {N}(a, g)", "v = {N}()", "mon.write({N}(a))", "mon.write({N}(li))", "v = {N}(a) + 1", "v = {N}(li)[0]", "{N}(a)", "if {N}(a):\n    mon.write(1)",
+             "v = {N}(a, 2, 3)", "for i in range({N}(a)):\n    mon.write(i)"]
+    for n in names:
+        for fi, form in enumerate(forms):
+            body = form.replace("{N}", n).split("\n")
+            tail = ["mon.write(v)"] if body[0].startswith("v = ") else []
+            yield {"id": f"B:{n}:{fi}", "space": "N", "src": common.script(head + body + tail, prologue=PRO), "runs": [{"passes": 0, "ar": {"A0": [4]}}], "python_decides": True}
+
+
+OPERANDS = {"int": "a", "float": "g", "bool": "(a > 2)", "str": "txt", "strlit": '"xy"', "list": "li", "intlit": "3", "floatlit": "2.5", "call": "half(a)", "listitem": "li[1]", "strcall": "str(a)"}
+
+
+def gen_operators(tier: str) -> Iterator[dict]:
+    head = ["g = a * 0.5", 'txt = "ab"', "li = [3, 4, 5]", "def half(v):", "    return v / 2"]
+    for op in ("+", "-", "*", "/", "//", "%", "**", "<", "==", "and", "or", "&", "|", "^", "<<", ">>"):
+        for (lk, l), (rk, r) in itertools.product(OPERANDS.items(), repeat=2):
+            for fi, form in enumerate(("v = {E}\nmon.write(v)", "mon.write({E})", "v = a\nv = {E}\nmon.write(v)")):
+                if fi == 2 and (op not in ("+", "*", "%") or lk in ("float", "floatlit", "call") or rk in ("float", "floatlit", "call")):
+                    continue  # (a float assigned to an int name is KF-C02-first-assignment-wins' subject)
+                body = form.replace("{E}", f"{l} {op} {r}").split("\n")
+                yield {"id": f"O:{lk}:{op}:{rk}:{fi}", "space": "N", "src": common.script(head + body, prologue=PRO), "runs": [{"passes": 0, "ar": {"A0": [4]}}], "python_decides": True}
+        for (lk, l) in OPERANDS.items():
+            if op in ("+", "-", "*", "/", "//", "%", "**", "&", "|", "^", "<<", ">>"):
+                for rk in ("intlit", "int", "float", "str"):
+                    if lk == "bool" or (lk in ("int", "intlit", "listitem") and (rk == "float" or op in ("/", "**"))):
+                        continue  # the variable would change its type: KF-C02-first-assignment-wins' subject
+                    body = ["v = " + l, f"v {op}= {OPERANDS[rk]}", "mon.write(v)"]
+                    yield {"id": f"O:{lk}:{op}=:{rk}", "space": "N", "src": common.script(head + body, prologue=PRO), "runs": [{"passes": 0, "ar": {"A0": [4]}}], "python_decides": True}
+
+
 def literal_strings(tier: str) -> List[str]:
     printable = [chr(c) for c in range(32, 127)]
     out = [""] + printable + ["".join(p) for p in itertools.product(printable, repeat=2)]
@@ -346,6 +383,9 @@ def judge(case, tr, dev_runs, host_runs):
     err = structure_errors(tr.cpp)
     if err:
         return "violation", err
+    if case.get("python_decides") and host_runs and host_runs[0].error is not None:
+        # the expression is ill-typed in Python itself (abs("ab"), len(3), [1] - 1): outside the property's domain
+        return "skip_host_" + (host_runs[0].error_type or "error"), host_runs[0].error or ""
     if dev_runs is None:
         return "violation", "accepted script does not compile: " + "; ".join(case.get("_compile_errors", []))[:400]
     dr = dev_runs[0]
@@ -374,6 +414,10 @@ def main(tier: str, seed: int, only=None) -> int:
         common.drive(report, MOD, gen_device_args(tier), opts={"host": False}, batch_size=40, bad=bad, include_witnesses=False)
     if not only or "N" in only:
         common.drive(report, MOD, gen_names(tier), opts={"host": True}, batch_size=8, bad=bad, include_witnesses=False)
+    if not only or "B" in only:
+        common.drive(report, MOD, gen_builtins(tier), opts={"host": True}, batch_size=8, bad=bad, include_witnesses=False)
+    if not only or "O" in only:
+        common.drive(report, MOD, gen_operators(tier), opts={"host": True}, batch_size=8, bad=bad, include_witnesses=False)
     if not only or "L" in only:
         common.drive(report, MOD, gen_literals(tier), opts={"host": True, "host_timeout": 30}, batch_size=2, bad=bad, include_witnesses=False)
     fs = features()
